@@ -1000,6 +1000,9 @@ func (x *Exec) runOne(sc *Scenario, st *Step) Ev {
 		if o == 77 { // judge this step also on a frame with an ambiguous enum table (Judge.tla AmbFrame; finding D21)
 			ev["ambjudge"] = 1
 		}
+		if o == 78 { // Equals that must hold by a law (results of one operation on a frame and on its rebuilt copy)
+			ev["must"] = 1
+		}
 	}
 	calls0 := atomic.LoadInt64(&callCount)
 	x.cur = sc
